@@ -64,7 +64,10 @@ def run_one(cfg, prefix, expect=None):
         vt = vts.get(i)
         if vt is None or i not in state["cur"]:
             return False
-        return vt.state == BLOCK and vt.on is not None and vt.on[1] == "event" and vt.on[0] is not go
+        # parked inside acquire(): on whatever the implementation waits with for its turn (an Event per waiter in the
+        # pinned tree; a Condition or a semaphore would do as well) - but not on a plain mutex, which it may still be
+        # queueing for before it has taken its place in line
+        return vt.state == BLOCK and vt.on is not None and vt.on[1] in ("event", "cond", "sem") and vt.on[0] is not go
 
     def note_call(i, j):
         for o, call in list(state["cur"].items()):
